@@ -211,6 +211,10 @@ Lemma pclass_some obs sig d : distance_payload_size obs sig = Some d -> d = 0.
 Proof. unfold distance_payload_size, tq_high. destruct (_ || _); congruence. Qed.
 Lemma olayout_some obs sig d : distance_olayout obs sig = Some d -> d = 0.
 Proof. unfold distance_olayout, tq_high. destruct (list_eqb _ _ _); congruence. Qed.
+Lemma quirk_compared_applies v q : quirk_compared v q = quirk_applies v q.
+Proof. destruct v, q; reflexivity. Qed.
+Lemma quirks_compared_for v qs : filter (quirk_compared v) qs = sig_quirks_for v qs.
+Proof. unfold sig_quirks_for. apply filter_ext. intros q. apply quirk_compared_applies. Qed.
 Lemma quirks_some obs sig d : distance_quirks obs sig = Some d -> d = 0.
 Proof. unfold distance_quirks, tq_high. destruct (list_eqb _ _ _); congruence. Qed.
 
@@ -246,7 +250,7 @@ Proof.
   assert (Ep : distance_payload_size (t_pclass o) (t_pclass s)
                = if pclass_inst_b (t_pclass s) (t_pclass o) then Some 0 else None).
   { unfold distance_payload_size, pclass_inst_b. reflexivity. }
-  rewrite Ev, Ep. unfold distance_olayout, distance_quirks, tq_high.
+  rewrite Ev, Ep. unfold distance_olayout, distance_quirks, tq_high. rewrite quirks_compared_for.
   destruct (version_inst_b _ _); cbn [negb orb obind]; [|reflexivity].
   destruct (distance_ttl _ _) as [t|] eqn:Et; cbn [obind].
   2:{ destruct (list_eqb tcp_option_eqb _ _), (list_eqb quirk_eqb _ _), (pclass_inst_b _ _); reflexivity. }
@@ -725,7 +729,7 @@ Example tcp_instance_zero_ex :
   let s := {| t_version := IpAny; t_ittl := TtlValue 64; t_olen := 0; t_mss := None; t_wsize := WMss 4; t_wscale := Some 7;
               t_olayout := [OMss; OSok; OTS; ONop; OWs]; t_quirks := [QDf; QNonZeroID]; t_pclass := PAnySize |} in
   let o := {| t_version := IpV6; t_ittl := TtlDistance 54 10; t_olen := 0; t_mss := Some 1460; t_wsize := WValue 5840; t_wscale := Some 7;
-              t_olayout := [OMss; OSok; OTS; ONop; OWs]; t_quirks := [QDf; QNonZeroID]; t_pclass := PNonZero |} in
+              t_olayout := [OMss; OSok; OTS; ONop; OWs]; t_quirks := []; t_pclass := PNonZero |} in
   ttl_u8 (t_ittl s) /\ tcp_instance s o /\ tcp_distance s o = Some 0.
 Proof.
   cbn zeta. split; [cbn; lia|]. split; [apply tcp_instance_b_iff; vm_compute; reflexivity|].
@@ -925,3 +929,32 @@ Example http_expsw_off_ex :
   let o := {| hs_version := HV11; hs_horder := [w_hdr false (bs "Host") None]; hs_habsent := []; hs_expsw := bs "Wget/1.21" |} in
   optional_name_reused s = false /\ expsw_off s o = true /\ expsw_reversed s o = false /\ http_distance s o = Some 3.
 Proof. cbn zeta. repeat split; vm_compute; reflexivity. Qed.
+
+(* fix c12quirksv6: a version-`*` signature listing df,id+ (Linux 3.11 and later in p0f.fp: *:64:0:*:mss*20,10:mss,sok,ts,nop,ws:df,id+:0)
+   is instantiated by an IPv6 SYN, whose quirk list cannot contain df / id+: distance 0 (was: rejected);
+   an IPv4 SYN must still carry both; an IPv6 observation that does carry df is still rejected;
+   `flow` is demanded of IPv6 observations only *)
+Definition w_linux (v : ip_version) (qs : list quirk) : tcp_sig :=
+  {| t_version := v; t_ittl := TtlValue 64; t_olen := 0; t_mss := None; t_wsize := WMss 20; t_wscale := Some 10;
+     t_olayout := [OMss; OSok; OTS; ONop; OWs]; t_quirks := qs; t_pclass := PZero |}.
+Lemma Quirks_v6_former_witness_agrees :
+  let s := w_linux IpAny [QDf; QNonZeroID] in
+  (tcp_instance s (set_mss (w_linux IpV6 []) (Some 1440)) /\ tcp_distance s (set_mss (w_linux IpV6 []) (Some 1440)) = Some 0)
+  /\ (tcp_instance s (w_linux IpV4 [QDf; QNonZeroID]) /\ tcp_distance s (w_linux IpV4 [QDf; QNonZeroID]) = Some 0)
+  /\ tcp_distance s (w_linux IpV4 []) = None
+  /\ tcp_distance s (w_linux IpV6 [QDf; QNonZeroID]) = None
+  /\ tcp_distance (w_linux IpAny [QFlowID; QEcn]) (w_linux IpV4 [QEcn]) = Some 0
+  /\ tcp_distance (w_linux IpAny [QFlowID; QEcn]) (w_linux IpV6 [QEcn]) = None.
+Proof.
+  cbn zeta. repeat split; try (apply tcp_instance_b_iff; vm_compute; reflexivity); vm_compute; reflexivity.
+Qed.
+Lemma quirks_masking_spec :
+  (forall qs, sig_quirks_for IpV6 qs = filter (fun q => negb (ipv4_only_quirk q)) qs)
+  /\ (forall qs, sig_quirks_for IpV4 qs = filter (fun q => negb (ipv6_only_quirk q)) qs)
+  /\ (forall qs, sig_quirks_for IpAny qs = qs)
+  /\ (forall s o, t_quirks o <> sig_quirks_for (t_version o) (t_quirks s) -> tcp_distance s o = None).
+Proof.
+  repeat split; try reflexivity.
+  - intros qs. unfold sig_quirks_for. induction qs as [|q qs IH]; cbn; [reflexivity | now rewrite IH].
+  - intros s o H. apply tcp_decisive_none. right; right; left. exact H.
+Qed.
